@@ -45,6 +45,7 @@ LEVEL["decided"] += " (R06.8/R06.9) the tool tables and the islice table, shared
 LEVEL["decided"] += " (R06.10) fault cells: every cell of the tool, aggregation and merge tables once more for each request to a source (up to and including the one that would find it exhausted) and each call of the user's callable, with exactly that use raising - about 5000 cells: the items delivered before, the uses made (none after the failure) and the exception ending the operation equal the stdlib's (aggregations: result / exception, no use after the failure)."
 LEVEL["decided"] += " (R06.11) coroutine aggregations do not call their user's callable inside a private async generator helper (a StopAsyncIteration raised by it would come out as RuntimeError)."
 LEVEL["technique"] += '; fault cells by abstract evaluation against the executed stdlib with the same use failing'
+LEVEL["decided"] += ' The whole-tool evaluations raise UnboundLocalError where a local is read while unbound on that path (a finally clause using a value the failing request never bound).'
 
 H4_UNITS = {"contextlib._AsyncGeneratorContextManager.__aenter__", "contextlib._AsyncGeneratorContextManager.__aexit__"}
 H5_UNITS = {"contextlib.ExitStack.__aexit__"}
